@@ -10,6 +10,7 @@ PVMID = os.path.join(core.BIN, "pvmid")
 
 
 def run_mid_cases(case_lines):
+    core.need_tool("pvmid")
     data = ("\n".join(case_lines) + "\n").encode()
     p = subprocess.run([PVMID, "-run"], input=data, stdout=subprocess.PIPE, stderr=subprocess.PIPE, timeout=1800)
     if p.returncode != 0:
